@@ -359,6 +359,18 @@ V("C01", "xyz-reader-conversion-dropped", "mdtraj/formats/xyzfile.py", "        
 V("C01", "xyz-reader-conversion-not-inplace", "mdtraj/formats/xyzfile.py", "        in_units_of(xyz, self.distance_unit, Trajectory._distance_unit, inplace=True)\n\n        if stride is None:\n            stride = 1\n        time = (stride * np.arange(len(xyz))) + initial\n        return Trajectory(xyz=xyz, topology=topology, time=time)", "        in_units_of(xyz, self.distance_unit, Trajectory._distance_unit)\n\n        if stride is None:\n            stride = 1\n        time = (stride * np.arange(len(xyz))) + initial\n        return Trajectory(xyz=xyz, topology=topology, time=time)", "C01-R9")
 V("C01", "twin-xyz-reader-conversion-rebound", "mdtraj/formats/xyzfile.py", "        in_units_of(xyz, self.distance_unit, Trajectory._distance_unit, inplace=True)\n\n        if stride is None:\n            stride = 1\n        time = (stride * np.arange(len(xyz))) + initial\n        return Trajectory(xyz=xyz, topology=topology, time=time)", "        xyz = in_units_of(xyz, self.distance_unit, Trajectory._distance_unit)\n\n        if stride is None:\n            stride = 1\n        time = (stride * np.arange(len(xyz))) + initial\n        return Trajectory(xyz=xyz, topology=topology, time=time)", None)
 V("C01", "save_mdcrd-cell-not-converted", _TRJ9, "                cell_lengths=in_units_of(\n                    self.unitcell_lengths,\n                    Trajectory._distance_unit,\n                    f.distance_unit,\n                ),\n            )\n\n    def save_netcdf", "                cell_lengths=self.unitcell_lengths,\n            )\n\n    def save_netcdf", "C01-R9")
+# array stores / iterload / volume (rules added with Addendum 3)
+_TRJ10 = "mdtraj/core/trajectory.py"
+V("C19", "nc-frame-counter-not-advanced", "mdtraj/formats/netcdf.py", "        self._frame_index += n_frames\n\n    def flush(self):", "        self._frame_index += 0\n\n    def flush(self):", "C19-R8", "NetCDFTrajectoryFile.write")
+V("C19", "h5-frame-counter-by-one", "mdtraj/formats/hdf5.py", "        self._frame_index += n_frames\n        self.flush()", "        self._frame_index += 1\n        self.flush()", "C19-R8", "HDF5TrajectoryFile.write")
+V("C19", "twin-nc-counter-from-slice", "mdtraj/formats/netcdf.py", "        self._frame_index += n_frames\n\n    def flush(self):", "        self._frame_index = frame_slice.stop\n\n    def flush(self):", None)
+V("C02", "iterload-seek-scaled-by-stride", _TRJ10, "            if skip > 0:\n                f.seek(skip)", "            if skip > 0:\n                f.seek(skip * stride)", "C02-R6", "iterload")
+V("C02", "iterload-pdb-stride-before-skip", _TRJ10, "        t = load(filename, atom_indices=atom_indices)[skip::stride]", "        t = load(filename, atom_indices=atom_indices)[::stride][skip:]", "C02-R6", "iterload")
+V("C02", "twin-iterload-seek-always", _TRJ10, "            if skip > 0:\n                f.seek(skip)", "            f.seek(skip)", None)
+V("C17", "twin-volume-closed-form", _TRJ10, "            return np.array(list(map(np.linalg.det, self.unitcell_vectors)), dtype=np.float64)", "            cosines = np.cos(np.deg2rad(self.unitcell_angles))\n            gram = 1.0 - np.sum(cosines**2, axis=1) + 2.0 * np.prod(cosines, axis=1)\n            return np.asarray(np.prod(self.unitcell_lengths, axis=1) * np.sqrt(gram), dtype=np.float64)", None)
+V("C17", "volume-closed-form-wrong-sign", _TRJ10, "            return np.array(list(map(np.linalg.det, self.unitcell_vectors)), dtype=np.float64)", "            cosines = np.cos(np.deg2rad(self.unitcell_angles))\n            gram = 1.0 - np.sum(cosines**2, axis=1) - 2.0 * np.prod(cosines, axis=1)\n            return np.asarray(np.prod(self.unitcell_lengths, axis=1) * np.sqrt(gram), dtype=np.float64)", "C17-R5", "Trajectory.unitcell_volumes.getter")
+V("C01", "save_netcdf-cell-not-converted", _TRJ10, "                cell_lengths=in_units_of(\n                    self.unitcell_lengths,\n                    Trajectory._distance_unit,\n                    f.distance_unit,\n                ),\n                cell_angles=self.unitcell_angles,\n            )\n\n    def save_netcdfrst", "                cell_lengths=self.unitcell_lengths,\n                cell_angles=self.unitcell_angles,\n            )\n\n    def save_netcdfrst", "C01-R9")
+V("C01", "save_pdb-second-frame-first-coordinates", _TRJ10, "                if self._have_unitcell:\n                    f.write(\n                        in_units_of(\n                            self._xyz[i],", "                if self._have_unitcell:\n                    f.write(\n                        in_units_of(\n                            self._xyz[0],", "C01-R9")
 V("C02", "twin-time-commuted", "mdtraj/formats/xyzfile.py", "        time = (stride * np.arange(len(xyz))) + initial", "        time = initial + (np.arange(len(xyz)) * stride)", None)
 V("C02", "twin-positional-args", "mdtraj/formats/netcdf.py", """        xyz, time, cell_lengths, cell_angles = self.read(
             n_frames=n_frames,
